@@ -103,4 +103,107 @@ theorem go_unknown_token_skipped (fuel : Nat) (tok : List Char) (nxt : List Char
     parseGoAux (fuel + 1) (tok :: nxt :: rest) gt = parseGoAux fuel (nxt :: rest) gt := by
   simp only [parseGoAux, h1, h2, h3, h4, h5, if_false]
 
+
+/-! ### standard input as a byte stream: reading lines, end of input -/
+
+theorem readLine_append (inp : List Char) : (readLine inp).1 ++ (readLine inp).2 = inp := by
+  induction inp with
+  | nil => rfl
+  | cons c rest ih =>
+    unfold readLine
+    by_cases hc : c = '\n'
+    · rw [if_pos hc]; rfl
+    · rw [if_neg hc]; simp only [List.cons_append, ih]
+
+/-- a line is read whenever a single byte is left — complete, blank, whitespace only or unterminated -/
+theorem readLine_nonempty (inp : List Char) (h : inp ≠ []) : (readLine inp).1 ≠ [] := by
+  cases inp with
+  | nil => exact absurd rfl h
+  | cons c rest =>
+    unfold readLine
+    by_cases hc : c = '\n'
+    · rw [if_pos hc]; simp
+    · rw [if_neg hc]; simp
+
+/-- nothing can be read exactly when the stream is exhausted -/
+theorem readFromGui_none_iff (inp : List Char) : readFromGui inp = none ↔ inp = [] := by
+  unfold readFromGui
+  constructor
+  · intro hn
+    cases inp with
+    | nil => rfl
+    | cons c rest =>
+      exfalso
+      have := readLine_nonempty (c :: rest) (by simp)
+      cases hl : (readLine (c :: rest)).1 with
+      | nil => exact this hl
+      | cons x xs => simp [hl] at hn
+  · intro e; subst e; rfl
+
+/-- every read consumes at least one byte -/
+theorem readFromGui_progress (inp line rest : List Char) (h : readFromGui inp = some (line, rest)) :
+    rest.length < inp.length := by
+  unfold readFromGui at h
+  simp only at h
+  by_cases hne : (readLine inp).1.isEmpty = true
+  · rw [if_pos hne] at h; cases h
+  · rw [if_neg hne] at h
+    injection h with h
+    have ha := readLine_append inp
+    rw [h] at ha
+    simp only at ha
+    have hl : line ≠ [] := by
+      intro e
+      rw [h] at hne
+      simp [e] at hne
+    rw [← ha, List.length_append]
+    have : 0 < line.length := List.length_pos_iff.mpr hl
+    omega
+
+/-- **closing standard input ends the process** — whatever was sent before and however the last line
+    looks (complete, blank, whitespace only, unterminated): on EVERY byte stream the command loop comes
+    to an end by itself (exit, or a panic / hang of one command); it never needs more steps than there
+    are bytes, and an exhausted stream means `exit 0` -/
+theorem stream_never_out_of_fuel (σ : Sess) (inp : List Char) :
+    ∀ fuel, inp.length < fuel → (runStream h search fuel σ inp).2 ≠ .outOfFuel := by
+  intro fuel
+  induction fuel generalizing σ inp with
+  | zero => intro hlt; omega
+  | succ n ih =>
+    intro hlt
+    unfold runStream
+    cases hr : readFromGui inp with
+    | none => simp
+    | some lr =>
+      obtain ⟨line, rest⟩ := lr
+      have hp := readFromGui_progress inp line rest hr
+      simp only
+      cases hs : step h search σ (some line) with
+      | cont σ' out => exact ih σ' rest (by omega)
+      | exit c => simp
+      | panic => simp
+      | hang => simp
+
+theorem exhausted_stream_exits (σ : Sess) (fuel : Nat) : runStream h search (fuel + 1) σ [] = ([], .exit 0) := rfl
+
+/-- and if no command panics or hangs (and none is `quit`), the process ends with `exit 0` exactly
+    when the stream is used up: unknown lines, blank lines and odd whitespace on the way do not stop it -/
+theorem stream_of_harmless_lines_exits_zero (σ : Sess) (inp : List Char)
+    (hharmless : ∀ σ' line, ∃ σ'' out, step h search σ' (some line) = .cont σ'' out) :
+    ∀ fuel, inp.length < fuel → (runStream h search fuel σ inp).2 = .exit 0 := by
+  intro fuel
+  induction fuel generalizing σ inp with
+  | zero => intro hlt; omega
+  | succ n ih =>
+    intro hlt
+    unfold runStream
+    cases hr : readFromGui inp with
+    | none => rfl
+    | some lr =>
+      obtain ⟨line, rest⟩ := lr
+      have hp := readFromGui_progress inp line rest hr
+      obtain ⟨σ'', out, hs⟩ := hharmless σ line
+      simp only [hs]
+      exact ih σ'' rest (by omega)
+
 end Walleye
